@@ -333,9 +333,49 @@ def DIAG(p0=None, p1=None, p2=None):
     b = run_reference(p0, p1, p2)
     return a[:2] == b[:2]'''
     T = "Union[None, bool, int]"
-    srcm = harness(f"p0: {T}, p1: {T}, p2: {T}", body, pre=["-1 <= (p0 or 0) <= 2", "-1 <= (p1 or 0) <= 2", "-1 <= (p2 or 0) <= 2"],
+    srcm = harness(f"p0: {T}, p1: {T}, p2: {T}", body, pre=[f"(p{i} is None or isinstance(p{i}, bool) or -1 <= p{i} <= 2)" for i in range(3)],   # no truthiness test: `p or 0` forks on p != 0
                    module_code=mod, warm=[(None, True, 1), (False, 0, 2)])
     return Spec(name, srcm, timeout=timeout, bound="parameters nil/bool/int(-1..2), all values", meta={"src": src, "opts": opts_dict(opts)})
+
+
+def gen_spec(name, src, opts, timeout, features):
+    from .c01_gen import RESET_SRC
+    mod = REFEVAL + f'''
+SRC = {src!r}
+REF_SRC = "(def g0 0) (def g1 1) " + SRC
+OPTS = {opts_dict(opts)!r}
+RESET = compile_program({RESET_SRC!r}, OPTS, "verif.c01.g")
+class CompileFailure(Exception):
+    pass
+try:
+    F = compile_program(SRC, OPTS, "verif.c01.g")
+except Exception as _e:
+    _why = type(_e).__name__ + ": " + str(_e)[:200]
+    def F(*a, _why=_why):
+        raise CompileFailure(_why)
+_FORMS.setdefault(REF_SRC, list(rd.read_str(REF_SRC)))
+def run_compiled(p0, p1, p2):
+    RESET()
+    return outcome(lambda: F(p0, p1, p2))
+def run_reference(p0, p1, p2):
+    return outcome(lambda: reference(REF_SRC, (p0, p1, p2)))
+def same(a, b):
+    if a[:2] != b[:2]:
+        return False
+    if a[0] != "ret" or a[2] == b[2]:
+        return True
+    # the *order* of effects is C02's subject (and has a recorded finding there); here the logged values must agree
+    return sorted(repr(canon(x)) for x in a[2]) == sorted(repr(canon(x)) for x in b[2])
+def DIAG(p0=None, p1=None, p2=None):
+    c, r = run_compiled(p0, p1, p2), run_reference(p0, p1, p2)
+    return dict(source=SRC, options=OPTS, compiled=repr(c), reference=repr(r), same_result=(c[:2] == r[:2]))
+'''
+    body = '''    return same(run_compiled(p0, p1, p2), run_reference(p0, p1, p2))'''
+    T = "Union[None, bool, int]"
+    srcm = harness(f"p0: {T}, p1: {T}, p2: {T}", body, pre=[f"(p{i} is None or isinstance(p{i}, bool) or -1 <= p{i} <= 2)" for i in range(3)],
+                   module_code=mod, warm=[(None, True, 1), (False, 0, 2)])
+    return Spec(name, srcm, timeout=timeout, bound="generated program (depth <= 3); parameters nil/bool/int(-1..2), all values; Vars g0/g1 reset before each call",
+                meta={"src": src, "opts": opts_dict(opts), "generated": True, "features": features})
 
 
 def program_specs(tier, seed):
@@ -355,13 +395,20 @@ def program_specs(tier, seed):
         chosen = [c for c in combos if c[2] == "fn-body" and c[4] == (False, True, True)]
         rest = [c for c in combos if c not in chosen]
         rnd.shuffle(rest)
-        chosen += rest[:30]
+        chosen += rest[:12]
     else:
         chosen = combos
     for bi, body, cname, ctx, o in chosen:
         src = ctx.replace("BODY", body)
         oname = "".join("T" if x else "F" for x in o)
         specs.append(mk_spec("C01", f"prog{bi:02d}/{cname}/opts={oname}", src, o, to, check_trace=False))
+    # generated programs (seeded): the corpus above is fixed, these change with VERIF_SEED / --seed
+    from .c01_gen import generate
+    gens = generate(seed, 48 if quick else 200)
+    for gi, (gname, gsrc, feats) in enumerate(gens):
+        for o in ([OPTS[(3 + gi) % 8]] if quick else [(False, True, True), (True, False, False)]):
+            oname = "".join("T" if x else "F" for x in o)
+            specs.append(gen_spec(f"{gname}/opts={oname}", gsrc, o, to, feats))
     return specs, len(combos)
 
 
@@ -380,11 +427,15 @@ def run(rep, tier, seed):
     rep.bounds = {"programs": f"{len(C01_BODIES)} bodies x {len(C01_CONTEXTS)} contexts x 8 option sets = {total}; "
                               f"this run: {len(specs)} (quick: all bodies in fn-body + VERIF_SEED sample)",
                   "inputs": "3 parameters, each nil/true/false/int -3..3 (solver-decided); loops <= 12 iterations"}
-    rep.outside = ["program shapes are a fixed corpus, not solver-chosen", "interop, deftype/reify, macros, async"]
+    rep.outside = ["program shapes are a fixed corpus plus a seeded generated sample, not solver-chosen", "interop, deftype/reify, macros, async"]
     rep.trusted += ["crosshair-tool 0.0.110 + z3", "reference evaluator (vlib/props/c01.py REFEVAL, ~200 lines)"]
     rep.extra["explanation"] = "per program, CrossHair explores every path of the compiled function over symbolic parameters and compares with the reference evaluator"
 
     def matcher(spec, cex):
+        if spec.meta.get("generated"):
+            if "finally-reads-rebound-loop-local" in spec.meta.get("features", ()):
+                return {"kind": "finally-reads-rebound-loop-local"}
+            return {"kind": "generated-program", "src": spec.meta["src"]}
         return {"kind": "closure-captures-loop-local" if closure_in_loop(spec) else "other"}
 
     run_specs(rep, specs, matcher, lambda s, c: f"{s.meta['src']} differs from its denotation on {c}")
